@@ -864,6 +864,27 @@ PROTO-BACKED MODELS AND METADATA EDITS.  Recipe op `reload`: model := from_proto
   so "emptied after having been non-empty" is frequent) and `tensor_doc`.  PART 1: tensor_key_serialized keys the
   CONTENT of a tensor in serialized form but takes the METADATA from the IR object (it used to come out of the
   serializer under test, which made the model agree with a serializer that re-emits stale proto metadata).
+GRAPH INPUT / OUTPUT LISTS AS MUTABLE SEQUENCES.  Recipe op `gio` covers del lst[i] (also negative), del slice, remove,
+  clear, extend, slice assignment (besides append / pop / insert / __setitem__), on graph.inputs and graph.outputs,
+  with the same value listed several times; edit kind `dup_output_history` builds the pattern "typed node output
+  listed twice, one listing deleted (del / del slice / pop), the other removed or replaced (pop / remove / del /
+  setitem / slice assignment / clear)".  ORACLE: the use-def / ownership facts of c17.oracle_invariants that are
+  INTERNAL contradictions (I1-I7: flag vs listing, uses vs inputs, producer vs outputs, initializer key/flag, owner
+  vs flags) are reported as violations ("inv:I4 ...") on the edited model before to_proto - they used to only
+  switch (c) off.  I1x / I2x / "I2/I4" (a node outside the model, a foreign output) are what accepted edits such as
+  remove(safe=False) legitimately produce and stay unreported.  Histories with rejected edits are included: since
+  c5c2382 / a9e4f9d the containers validate before mutating (the GraphOutputs.__setitem__ defect reported earlier
+  is fixed); 10000 generated histories on the clean tree gave no internal contradiction.
+QUANTIZATION ANNOTATIONS.  Recipe op `set_quant` sets / empties / removes value.meta["quant_parameter_tensor_names"]
+  on inputs, initializers, input-initializers (also in subgraphs now), node outputs and graph outputs of the main
+  graph and of subgraphs (not in functions: FunctionProto cannot carry them); ~10% of the models at construction
+  plus an edit kind.  IsoCheck compares the annotation per value ({} == absent; a value without a name cannot be
+  annotated: condition "quant-unnamed"); the snapshot records value.meta.  COQ: cases whose proto carries
+  annotations stay `unmodelled` (ProtoConv.graph), the oracle (a)(b)(c) is what checks them.
+SEEDED CHANGES round 4: C03-r4m1 (_GraphIO.__delitem__ keeps the refcount of a value still listed elsewhere: stale
+  is_graph_output after the last listing goes) - "inv:I4: value ... is flagged graph output but is not in its graph's
+  outputs", 9-op replay (gout_append, gio:del, gio:clear); C03-r4m2 (annotation of an input-initializer written by
+  neither loop) - "iso:quantization ... vs None", 6-op replay.  Both were missed before these generators existed.
 NON-C-CONTIGUOUS TENSORS.  About half of the ir.Tensor / LazyTensor tensors (initializers and attribute tensors) have
   rank 2-3, distinct elements and a backing numpy array that is transposed, Fortran-ordered, strided or reversed
   (recipe field `layout`).  The content is compared LOGICALLY: IsoCheck compares the row-major elements of
@@ -1723,7 +1744,7 @@ class Gen:
                 self.emit(dict(self.devcfg_fields(), op="devcfg_add"))
             for _ in range(r.randrange(1, 6)):
                 self.gen_shard()
-        if r.random() < 0.2:
+        if r.random() < 0.1:                 # kept moderate: such cases skip the Coq comparison (unmodelled)
             for _ in range(r.randrange(1, 4)):
                 self.gen_quant()
         if r.random() < 0.3:
@@ -1926,7 +1947,7 @@ class Gen:
                  ("graph_meta", 1), ("opset", 1), ("model_set", 1), ("model_meta", 1), ("func_set", 1),
                  ("shard", 4), ("devcfg_remove", 3), ("devcfg_add", 1), ("replace_sharded_input", 3),
                  ("meta_edit", 14), ("reload", 2),
-                 ("gio", 8), ("dup_output_history", 5), ("set_quant", 4)]
+                 ("gio", 8), ("dup_output_history", 5), ("set_quant", 2)]
         k = r.choices([x for x, _ in kinds], [w for _, w in kinds])[0]
         gid = self.pick_graph()
         g = self.env.g[gid]
